@@ -230,3 +230,7 @@ PROPS['C12'] = dict(
     level_text="From the real AST of run_games, for dictionaries with any number of games in any order: after the loop, for EVERY game the result holds an entry under its name and one under name_no_prune; if the pruned solve succeeds the pruned entry carries 'Game solved' and exactly the eight values, state and transition counts that solving that description alone gives (SOL of its own description only), and likewise the unpruned entry (or the error message if only the unpruned solve fails); if the pruned solve raises ValueError the entry carries 'Error while solving the game: ' + that message, the unpruned entry is 'Game not solved', both without results; the descriptions of all games are unchanged; nothing but ValueError is caught. Independence of order and of the other games is immediate from the shape of this postcondition. The validating prefix of solve, check_game, check_next_states, init_states (C09) and read_dict_from_file are in the cone.",
     level_note="Trusted: z3 (incl. strings for the _no_prune keys), the encoder, A-SUMMARY, A-DEEPCOPY. Name collisions are excluded by precondition (known finding F-NAME).",
 )
+
+for _p in ('C01', 'C03', 'C06', 'C07'):
+    PROPS[_p].setdefault('static', [])
+    PROPS[_p]['static'] = list(PROPS[_p]['static']) + [('lean-meta-lemmas-M_LFP-From0_inv', ST.lean_meta)]
